@@ -71,7 +71,6 @@ def metaToks (m : Meta) : Option (List String) := do
 
 def outcomeTok (o : Outcome) : String :=
   match o with
-  | .unsupported => "UNSUPPORTED"
   | .err ds => "ERR " ++ diagsTok ds
   | .ok f ds =>
     match (if f.exact then metaToks f.info else none) with
